@@ -14,14 +14,8 @@ def env_text(u, with_points=True):
     """shared environment of the group-level units"""
     u.add(spec_text('group.vrs'))
     u.add("pub mod code {\nuse vstd::prelude::*;\nuse super::grp::*;\nbroadcast use group_axioms;\n")
-    u.add(spec_text('base.vrs'))
-    for mod, name in (('fq', 'FqRepr'), ('fq', 'Fq')):
-        t = u.real_item(mod, 'struct', r'struct ' + name + r'\b', derive='Clone, Copy')
-        u.add(re.sub(r'pub\((super|crate)\)', 'pub', t))
-    u.add(spec_text('fq_stub.vrs'))
-    u.add(spec_text('tower.vrs'))
-    u.add(u.real_item('fq2', 'struct', r'struct Fq2\b', derive='Clone, Copy'))
-    u.add("impl Fq2 { pub open spec fn v(&self) -> F2 { F2 { c0: self.c0.v(), c1: self.c1.v() } } }")
+    from units.tower import tower_env
+    tower_env(u, opaque='all')
     u.add(spec_text('curve_traits.vrs'))
     if with_points:
         for mod, name in (('g1', 'G1Affine'), ('g1', 'G1'), ('g2', 'G2Affine'), ('g2', 'G2')):
